@@ -27,6 +27,16 @@ Theorem c01_fail_noop : forall st blk sender o rok,
   tx st blk sender o rok = (st, false, []).
 Proof. exact tx_cases. Qed.
 
+(* the step contract S_C01 evaluated on the implementation never fires on the model's own transition
+   (accepted, or refused and leaving everything as it was); `ob_unlisted = []` says that the listing
+   shows every holder, which the model's listing (all keys of the balance map) does by construction *)
+Theorem c01_contract_never_fires_on_model : forall pre post blk sender o ms,
+  let st := state_of_obs pre false in let st' := state_of_obs post false in
+  Inv01 st -> ob_unlisted post = [] -> step st blk sender o = Ok (st', ms) -> s_c01 pre post sender o true = 0.
+Proof. exact s_c01_sound. Qed.
+Theorem c01_contract_never_fires_on_refusal : forall pre sender o,
+  let st := state_of_obs pre false in Inv01 st -> ob_unlisted pre = [] -> s_c01 pre pre sender o false = 0.
+Proof. exact s_c01_sound_refused. Qed.
 Example c01_nonvacuous :
   exists st, instantiate (mkInit [(Some 1, 500); (Some 3, 70)] (Some (Some 2, Some 1000))) = Ok st /\
              supply (run st [(mkBlock 1 1, 1, Transfer (Some 3) 30, true);
@@ -38,3 +48,5 @@ Print Assumptions c01_main.
 Print Assumptions c01_step.
 Print Assumptions c01_model_delta.
 Print Assumptions c01_fail_noop.
+Print Assumptions c01_contract_never_fires_on_model.
+Print Assumptions c01_contract_never_fires_on_refusal.
